@@ -25,8 +25,8 @@ _c = h3.h3_to_parent(somewhere(), 9)
 CELLS += sorted(h3.h3_to_children(_c, 15))[:2]
 
 
-def build(rnd):
-    mixed = rnd.random() < 0.5          # half of the scenarios: electric and gasoline vehicles / plugs side by side
+def build(rnd, focus=False):
+    mixed = focus or rnd.random() < 0.5          # half of the scenarios: electric and gasoline vehicles / plugs side by side
     pump = mock_gasoline_pump()
     if mixed:
         bev_, ice_ = mock_bev(), mock_ice()
@@ -44,12 +44,15 @@ def build(rnd):
         bases.append(mock_base_from_geoid(base_id=f"b{i}", geoid=g, station_id=f"s{i}" if rnd.random() < 0.7 else None,
                                           stall_count=rnd.choice([1, 2])))
     from nrel.hive.model.membership import Membership
-    fleets = rnd.random() < 0.5         # half of the scenarios: some vehicles / requests / stations belong to fleets
+    fleets = (not focus) and rnd.random() < 0.5         # half of the scenarios: some vehicles / requests / stations belong to fleets
     def mem():
         return rnd.choice([Membership(), Membership.single_membership("a"), Membership.single_membership("b")]) if fleets else Membership()
     if fleets:
         stations = [s_.set_membership(tuple(mem().memberships)) if hasattr(s_, "set_membership") else s_ for s_ in stations]
-    vehicles = [mock_vehicle_from_geoid(vehicle_id=f"v{i}", geoid=rnd.choice(CELLS), soc=rnd.choice([0.0005, 0.3, 0.6, 1.0]),
+    spots = [s_.geoid for s_ in stations] * 2 + CELLS           # vehicles start at a station more often than not
+    if focus:
+        spots = [stations[0].geoid]     # charging-focused scenario: everybody starts at station s0
+    vehicles = [mock_vehicle_from_geoid(vehicle_id=f"v{i}", geoid=rnd.choice(spots), soc=rnd.choice([0.0005, 0.3, 0.6, 1.0]),
                                         membership=mem(), **({"mechatronics": ice_} if mixed and i == 2 else {}))
                 for i in range(3)]
     sim = mock_sim(vehicles=tuple(vehicles), stations=tuple(stations), bases=tuple(bases), sim_time=SimTime(600),
@@ -61,15 +64,19 @@ def build(rnd):
     return sim, env
 
 
-def random_instruction(rnd, sim):
+def random_instruction(rnd, sim, focus=False):
     v = rnd.choice(sorted(sim.vehicles))
     s = rnd.choice(sorted(sim.stations))
     b = rnd.choice(sorted(sim.bases))
     c = rnd.choice([mock_dcfc_charger_id(), mock_l2_charger_id()])
-    if "gas_pump" in sim.stations[s].state and rnd.random() < 0.5:
-        c = "gas_pump"
+    if "gas_pump" in sim.stations[s].state and (sim.vehicles[v].mechatronics_id == "ice" or rnd.random() < 0.2):
+        c = "gas_pump"          # a gasoline vehicle goes to the pump
     reqs = sorted(sim.requests)
-    choices = [IdleInstruction(v), DispatchStationInstruction(v, s, c), ChargeStationInstruction(v, s, c), ChargeBaseInstruction(v, b, c),
+    if focus:
+        c0 = "gas_pump" if sim.vehicles[v].mechatronics_id == "ice" else rnd.choice([mock_dcfc_charger_id(), mock_l2_charger_id()])
+        return rnd.choice([ChargeStationInstruction(v, "s0", c0), ChargeStationInstruction(v, "s0", c0), IdleInstruction(v)])
+    choices = [IdleInstruction(v), DispatchStationInstruction(v, s, c), ChargeStationInstruction(v, s, c), ChargeStationInstruction(v, s, c),
+               ChargeBaseInstruction(v, b, c),
                DispatchBaseInstruction(v, b), ReserveBaseInstruction(v, b), OutOfServiceInstruction(v)]
     if reqs:
         choices += [DispatchTripInstruction(v, rnd.choice(reqs))] * 2
@@ -204,13 +211,14 @@ ORACLES = {"C03": (lambda sim: None), "C02": check_C02, "C07": check_C07, "C08":
 
 def scenario(pid, seed):
     rnd = random.Random(seed)
-    sim, env = build(rnd)
+    focus = pid in ("C05", "C04") and seed % 2 == 1          # every other scenario of the energy properties is charging-focused
+    sim, env = build(rnd, focus)
     initial = {v.id: dict(v.energy) for v in sim.vehicles.values()}
     trace = []
     saved = [(sim, sim_fp(sim))] if pid == "C16" else []
     for step in range(12):
         if rnd.random() < 0.75:
-            ins = random_instruction(rnd, sim)
+            ins = random_instruction(rnd, sim, focus)
             before = sim
             sim = apply_instructions(sim, env, (ins,))
             if pid == "C03":
